@@ -601,7 +601,13 @@ def evaluated_second_call(rep, ex: Explorer, qual: str, role: str):
         def setup(I, weakly=weakly, marks=marks, shape=shape):
             conds = I.alloc(HDict(entries={k_: ElemV(("obj", nm_), "cond") for k_, nm_ in shape}))
             bb = I.alloc(HObj(BB_CLASS, {"conditionals": conds, "signature": Sym(("signature", "D")), "name": Sym(("bbname", "D"), "str")}))
-            I.call_function(fi, [bb, Const("z3"), Const(weakly)], {}, None, force_inline=True)
+            from ..absint import PathEnd
+            try:
+                I.call_function(fi, [bb, Const("z3"), Const(weakly)], {}, None, force_inline=True)
+            except PathEnd as e_:
+                # (the first call does not come back on this path - a loop that never ends is reported by the evaluation of
+                # the single call; there is no second call to judge)
+                raise AnalysisError(f"{site}: the first of two calls in a row does not return ({e_.args[0][0] if e_.args and isinstance(e_.args[0], tuple) else e_})")
             I.deref(conds).entries[7] = ElemV(("obj", "new"), "cond")
             I.log("second.call", None)
             return [bb, Const("z3"), Const(weakly)], {}
